@@ -11,6 +11,7 @@
 (*                    size + estimate(e) + 10 >= maxBatchSize => TooBig    *)
 (*   estimate(e)    : len(key) + len(value) + 2      if len(value) < thr   *)
 (*                    len(key) + 12 + 2              otherwise (pointer)   *)
+(*                    in-memory mode: always the first form (no value log) *)
 (*   commitAndSend  : every key gets an 8 byte timestamp suffix; the end   *)
 (*                    marker has key "!badger!txn"+8 bytes and the decimal *)
 (*                    commit timestamp (1..20 digits) as value             *)
@@ -31,6 +32,8 @@ EXTENDS Integers, Sequences, FiniteSets, TLC
 CONSTANTS MaxSize,    \* opt.maxBatchSize  (15% of MemTableSize)
           MaxCount,   \* opt.maxBatchCount (maxBatchSize / skl.MaxNodeSize)
           Threshold,  \* value threshold (values at or above it go to the value log)
+          InMem,      \* BOOLEAN: Options.InMemory - no value log: every accepted value (up to and including
+                      \* the threshold) stays in the LSM tree; longer values are refused by Txn.modify
           Reserve,    \* bytes newTransaction reserves for the end marker
           KLens,      \* key lengths explored
           FixedV,     \* fixed value lengths explored
@@ -53,7 +56,11 @@ VARIABLES size, count,   \* Txn.size, Txn.count
 
 vars == <<size, count, ents, nadds, st>>
 
-Est(k, v) == IF v < Threshold THEN k + v + MetaLen ELSE k + PtrLen + MetaLen
+Est(k, v) == IF InMem \/ v < Threshold THEN k + v + MetaLen ELSE k + PtrLen + MetaLen
+
+\* Txn.modify refuses the value before any accounting (in-memory mode only; the other
+\* validation rules are Part 2)
+TooLong(v) == InMem /\ v > Threshold
 
 Init ==
     /\ size = Reserve
@@ -75,7 +82,7 @@ Add(k, v) ==
     /\ st = "open" /\ nadds < MaxAdds
     /\ v >= 0
     /\ nadds' = nadds + 1
-    /\ IF TooBig(k, v)
+    /\ IF TooLong(v) \/ TooBig(k, v)
        THEN UNCHANGED <<size, count, ents>>
        ELSE /\ size' = size + Est(k, v) + Extra
             /\ count' = count + 1
